@@ -76,12 +76,23 @@ TIMED_EXPIRY = 100
 # vv / xv: the handler returns (payload, value) / raises ValueError(payload, value) where `value` is the boundary value of the
 # serializer that travelled to it as a by-value argument inside the script
 # vr / xr: the same, but the value does NOT travel with the request (the handler looks it up): result direction only
-OUTS = ["v", "vv", "vr", "r", "x", "xv", "xr", "bc", "bg", "bb", "bs", "bk", "ei", "ed", "pi", "pr"]
-MODEL_OUT = {"v": "v", "vv": "v", "vr": "v", "r": "r", "x": "x", "xv": "x", "xr": "x", "bc": "b", "bg": "b", "bb": "b", "bs": "b", "bk": "b",
+# xg / xc: the handler raises an exception the REQUESTER's side cannot rebuild from its payload (an ExceptionGroup; a class
+# whose __new__ needs arguments): the response is well-formed on the wire, its decoding fails at the receiver
+OUTS = ["v", "vv", "vr", "r", "x", "xv", "xr", "xg", "xc", "bc", "bg", "bb", "bs", "bk", "ei", "ed", "pi", "pr"]
+MODEL_OUT = {"v": "v", "vv": "v", "vr": "v", "r": "r", "x": "x", "xv": "x", "xr": "x", "xg": "x", "xc": "x", "bc": "b", "bg": "b", "bb": "b", "bs": "b", "bk": "b",
              "ei": "e", "ed": "e", "pi": "p", "pr": "p"}
 ALTERED = -2
 LOCAL_SWITCH = {"SystemExit": "propagate_SystemExit_locally", "KeyboardInterrupt": "propagate_KeyboardInterrupt_locally"}
 LOCAL_OUT = {"SystemExit": "bs", "KeyboardInterrupt": "bk"}
+
+
+class NeedsArgs(Exception):
+    """an exception class that `cls.__new__(cls)` cannot create: the receiver of its payload cannot rebuild it"""
+    def __new__(cls, a, b):
+        return Exception.__new__(cls, a, b)
+
+
+UNDECODABLE_OUTS = ("xg", "xc")
 
 
 class Boom(BaseException):
@@ -234,10 +245,11 @@ class Run(object):
             self.arg_altered.append(cid)
         for kind, sub in pre:
             self.call(side, kind, sub)
-        payload = 1000 + cid if out in ("v", "vv", "vr", "r", "x", "xv", "xr") or out[0] == "b" else 0
+        payload = 1000 + cid if out in ("v", "vv", "vr", "r", "x", "xv", "xr", "xg", "xc") or out[0] == "b" else 0
         # SystemExit / KeyboardInterrupt on a side configured to propagate it locally: not answered, by configuration
         local = self.local.get(side) is not None and out == LOCAL_OUT[self.local[side]]
-        self.rec.log(t="finish", side=side, cid=cid, out="l" if local else MODEL_OUT[out], payload=payload)
+        self.rec.log(t="finish", side=side, cid=cid, out="l" if local else MODEL_OUT[out], payload=payload,
+                     undec=out in UNDECODABLE_OUTS)
         if out[0] == "b":
             exc = base_exception(out, payload)
             if local:
@@ -249,6 +261,10 @@ class Run(object):
             return (payload, extra)
         if out in ("xv", "xr"):
             raise ValueError(payload, extra)
+        if out == "xg":
+            raise ExceptionGroup("several", [ValueError(payload), KeyError(payload)])
+        if out == "xc":
+            raise NeedsArgs(payload, 1)
         if out == "r":
             obj = [payload]
             self.refs[id(obj)] = payload
@@ -418,7 +434,7 @@ class Run(object):
                 pref = [e["seq"] for e in mine if e["seq"] in answered and e.get("kind") == "a" and not e.get("hidden")]
                 if pref and i % 2 == 0:
                     cand = pref         # an asynchronous result the program still holds
-            elif mode == "steal":
+            elif mode in ("steal", "steal-undecodable"):
                 cand = [e["seq"] for e in mine if e["seq"] not in answered and e.get("kind") == "a"
                         and not e.get("hidden")]
             else:
@@ -428,9 +444,15 @@ class Run(object):
             seq = cand[-1]
             self.injected_seqs.add(seq)
             rec.injecting = (seq, INJECT_PAYLOAD)
-            self.net.streams["B"].write(protonet.frame_bytes(
-                (consts.MSG_REPLY, seq, (consts.LABEL_VALUE, INJECT_PAYLOAD))))
+            if mode == "steal-undecodable":
+                # a reply that hands back a reference to an object of OURS that we do not (no longer) know: stale LOCAL_REF
+                rec.injecting_undec = True
+                body = (consts.LABEL_LOCAL_REF, ("builtins.list", 1, 2))
+            else:
+                body = (consts.LABEL_VALUE, INJECT_PAYLOAD)
+            self.net.streams["B"].write(protonet.frame_bytes((consts.MSG_REPLY, seq, body)))
             rec.injecting = None
+            rec.injecting_undec = False
 
     def await_(self, side, cid):
         ar = self.asyncs.get((side, cid))
@@ -468,11 +490,14 @@ class Run(object):
                 # both propagate_*_locally switches are set explicitly (DEFAULT_CONFIG has the KeyboardInterrupt one ON,
                 # although its documentation table says False): off everywhere, except side B's as the program says
                 cfg = {"sync_request_timeout": 600, "propagate_SystemExit_locally": False,
-                       "propagate_KeyboardInterrupt_locally": False}
+                       "propagate_KeyboardInterrupt_locally": False,
+                       # exception classes of this module are rebuilt at the receiver (so one that cannot be is met)
+                       "instantiate_custom_exceptions": True}
                 from rpyc.core.channel import Channel
                 stra, strb = net.stream_pair("A", "B")
                 self.rec = rec = protonet.Recorder(net)
                 rec.injecting = None
+                rec.injecting_undec = False
                 self._install_inject_tag()
                 cfg_b = dict(cfg)
                 if self.local.get("B"):
@@ -535,6 +560,7 @@ class Run(object):
                 for e in rec.events[n:]:
                     if e["t"] == "write":
                         e["injected"] = rec.injecting
+                        e["undec"] = bool(rec.injecting_undec)
         for s in self.net.streams.values():
             s.fault = hook
 
@@ -591,6 +617,7 @@ def model_tokens(run):
         if e["t"] == "write" and e["ok"] and e["msg"] in (consts.MSG_REPLY, consts.MSG_EXCEPTION) \
                 and not e.get("injected"):
             resp_kind.setdefault((e["side"], e["seq"]), e["msg"])
+    undec_next = {"A": False, "B": False}      # the handler that just finished raised something its requester cannot rebuild
     for e in rec.events:
         t, side = e["t"], e["side"]
         peer = "B" if side == "A" else "A"
@@ -600,18 +627,20 @@ def model_tokens(run):
             if e.get("injected"):
                 seq, val = e["injected"]
                 toks.append("j%s%s%d:%d" % (peer, "R" if e["msg"] == consts.MSG_REPLY else "X", seq, val))
-                fifo[peer].append(dict(msg=e["msg"], seq=e["seq"]))
+                fifo[peer].append(dict(msg=e["msg"], seq=e["seq"], undec=e.get("undec", False)))
             elif e["msg"] == consts.MSG_REQUEST:
                 toks.append("i%s%s" % (side, e.get("kind", "s")))
                 fifo[peer].append(dict(msg=e["msg"], seq=e["seq"], hidden=e.get("hidden", False),
                                        bad=e.get("bad", False)))
             else:
-                fifo[peer].append(dict(msg=e["msg"], seq=e["seq"]))
+                fifo[peer].append(dict(msg=e["msg"], seq=e["seq"], undec=undec_next[side]))
+                undec_next[side] = False
         elif t == "recv":
             if e.get("eof") or not fifo[side]:
                 continue
             fr = fifo[side].pop(0)
-            toks.append("d" + side)
+            # (a response whose payload this side cannot decode: the model's deliverFail)
+            toks.append(("D" if fr.get("undec") and fr["msg"] != consts.MSG_REQUEST else "d") + side)
             if fr["msg"] == consts.MSG_REQUEST:
                 if fr.get("bad"):
                     toks.append("F%su:0" % side)
@@ -620,6 +649,7 @@ def model_tokens(run):
                     toks.append("F%s%s:0" % (side, "v" if k == consts.MSG_REPLY else "x"))
         elif t == "finish":
             toks.append("F%s%s:%d" % (side, e["out"], e["payload"]))
+            undec_next[side] = bool(e.get("undec"))
             if e["out"] == "l":
                 break          # the exception leaves serve_all by configuration: the connection ends (C11 from here)
         elif t == "issuefail":
@@ -713,7 +743,7 @@ def gen_script(r, next_cid, depth, outs):
 def gen_program(r, size, heavy, local=None):
     """heavy: include the slow outcome classes (deep tuple, repr that raises); local: "SystemExit" | "KeyboardInterrupt":
     side B propagates that exception locally, and only handlers at B's base level raise it"""
-    outs = ["v", "vv", "vv", "vr", "r", "x", "xv", "xr", "bc", "bg", "bb", "bs", "bk", "ei", "pi"] + (["ed", "pr"] if heavy else [])
+    outs = ["v", "vv", "vv", "vr", "r", "x", "xv", "xr", "xg", "xc", "bc", "bg", "bb", "bs", "bk", "ei", "pi"] + (["ed", "pr"] if heavy else [])
     if local:
         outs = [o for o in outs if o != LOCAL_OUT[local]]
     next_cid = [1]
@@ -742,7 +772,7 @@ def gen_program(r, size, heavy, local=None):
         elif k < 18:
             prog.append(["u", r.choice(["handler", "arity", "localid", "label"])])
         else:
-            prog.append(["j", r.choice(["dup", "unmatched", "steal"])])
+            prog.append(["j", r.choice(["dup", "unmatched", "steal", "steal-undecodable"])])
     return prog
 
 
@@ -762,6 +792,11 @@ def boundary_programs():
     out.append([["s", [1, [], "v"]], ["j", "dup"], ["s", [2, [], "v"]]])
     out.append([["j", "unmatched"], ["s", [1, [], "v"]]])
     out.append([["a", [1, [], "v"]], ["j", "steal"], ["w", 0], ["s", [2, [], "v"]]])
+    # responses the requester's side cannot decode: they still reach their own requester (as an error), whoever is serving
+    out.append([["a", [1, [], "v"]], ["j", "steal-undecodable"], ["w", 0], ["s", [2, [], "v"]]])
+    for o in UNDECODABLE_OUTS:
+        out.append([["a", [1, [], o]], ["s", [2, [], "v"]], ["w", 0]])        # delivered while ANOTHER request is serving
+        out.append([["a", [1, [], o]], ["a", [2, [], "v"]], ["w", 1], ["w", 0]])
     out.append([["a", [1, [["a", [2, [], "x"]], ["s", [3, [["a", [4, [], "r"]]], "v"]]], "ei"]], ["s", [5, [], "pi"]]])
     # every boundary value of the serializer as argument + result, and as argument + exception argument (also via a callback)
     for i, t in enumerate(value_pool()):
@@ -1107,7 +1142,7 @@ def oracle(run):
     out_of = {}     # cid -> outcome letter, from the handler log
     for e in rec.events:
         if e["t"] == "finish":
-            out_of[(e["side"], e["cid"])] = (e["out"], e["payload"])
+            out_of[(e["side"], e["cid"])] = (e["out"], e["payload"], bool(e.get("undec")))
     # SystemExit / KeyboardInterrupt raised where the configuration routes it locally: from then on the serving side is
     # gone by configuration; requests it had not answered yet are not the statement's business
     local = run.local_fired()
@@ -1123,7 +1158,7 @@ def oracle(run):
             if n == 0 and getattr(run, "b_exit", None) and not local:
                 sig = "C08:request-lost-receiver-cannot-decode"
             if n == 0 and not e.get("hidden"):
-                o = out_of.get((peer, e.get("cid")), ("?", 0))[0]
+                o = out_of.get((peer, e.get("cid")), ("?", 0, False))[0]
                 if o == "b":
                     sig = "C08:baseexception-no-response"
                 elif o == "p":
@@ -1143,14 +1178,19 @@ def oracle(run):
                 return ("%s was never executed but answered" % who, "C08:not-executed")
         got = run.outcomes.get((e["side"], key), [])
         if len(got) != 1:
-            return ("%s: its requester was given %d outcomes %r" % (who, len(got), got[:3]), "C08:requester-outcomes")
+            sig = "C08:requester-outcomes"
+            if not got and e.get("cid") is not None and out_of.get((peer, e["cid"]), ("", 0, False))[2]:
+                sig = "C08:undecodable-response-not-delivered"
+            return ("%s: its requester was given %d outcomes %r" % (who, len(got), got[:3]), sig)
         kind, payload = got[0]
         wire_kind = "R" if resp[(peer, e["seq"])][0] == consts.MSG_REPLY else "X"
         if kind != wire_kind:
             return ("%s: the response frame was %s but the requester saw %s" % (who, wire_kind, kind), "C08:misrouted")
         if e.get("cid") is not None and (peer, e["cid"]) in out_of:
-            o, p = out_of[(peer, e["cid"])]
+            o, p, undec = out_of[(peer, e["cid"])]
             want = {"v": "R", "r": "R"}.get(o, "X")
+            if undec and kind == "X":
+                continue          # the response could not be decoded here: its requester was told so (an error), as it must
             if kind == want and payload == ALTERED:
                 return ("%s: the value carried by its response arrived altered at the requester" % who, "C08:response-altered")
             if kind != want or (o in ("v", "r", "x", "b") and payload != p):
